@@ -162,7 +162,7 @@ def build(case, ck, fname):
     if case["ret"] is not None:
         ns["A_ret"] = entry_annotation(case["ret"])
         retstr = " -> A_ret"
-    src = f"def {fname}({', '.join(parts)}){retstr}:\n    __calls.append(1)\n    return __ret[0]\n"
+    src = f"{'async ' if case.get('is_async') else ''}def {fname}({', '.join(parts)}){retstr}:\n    __calls.append(1)\n    return __ret[0]\n"
     for p in case["params"]:
         ns[f"__D_{p['name']}"] = entry_value(p, ns)
     gc.exec_source(src, "<vf-generated>", ns)
@@ -178,9 +178,15 @@ def check_case(ctx, case):
     if w["stage"] == "unspecified":
         ctx.classes["skipped-unspecified"] += 1
         return
+    is_async = bool(case.get("is_async"))
+    if is_async and w["stage"] == "return":
+        # a coroutine function: its parameters are checked when it is called; whether the awaited value is checked against the return
+        # annotation is not claimed either way
+        ctx.classes["skipped-async-return-violation"] += 1
+        return
     desc = {"params": [(p["name"], p["kind"], gc.spec_of(p) if p["kind"] not in ("cfg", "unrepr", "fickle") else p["kind"], p.get("structure"), p.get("shape", p.get("tree"))) for p in case["params"]],
             "ret": (gc.spec_of(case["ret"]), case["ret"]["shape"]) if case["ret"] else None, "flag": case["flag"],
-            "defaults": [case.get("ndefaults", 0), case.get("omit", 0)]}
+            "defaults": [case.get("ndefaults", 0), case.get("omit", 0)], "async": bool(case.get("is_async"))}
     keep_n = kept(case)
     fickle = any(p["kind"] == "fickle" for p in case["params"][:keep_n])  # (an omitted, defaulted parameter is never looked at)
     for ck in ("typeguard", "beartype"):
@@ -194,7 +200,13 @@ def check_case(ctx, case):
             _FickleMeta.asked = 0
             try:
                 try:
-                    fn(*args, **kwargs)
+                    r = fn(*args, **kwargs)
+                    if is_async:
+                        # awaited to completion by hand (the body never suspends)
+                        try:
+                            r.send(None)
+                        except StopIteration:
+                            pass
                     exc = None
                 except BaseException as e:  # noqa: BLE001
                     exc = e
@@ -268,7 +280,7 @@ def check_case(ctx, case):
     rejected = w["stage"] in ("param", "return")
     nontrivial = rejected and (w.get("tentative", 0) >= 1 or w.get("rolled") or (w["stage"] == "return" and bool(w["m"].bindings())))
     ctx.note([desc], nontrivial,
-             classes=(["unpinnable-violation"] if fickle else []) + (["defaulted-arguments-omitted"] if min(case.get("omit", 0), case.get("ndefaults", 0)) else []) + [f"stage-{w['stage']}", f"flag-{case['flag']}"] + ([f"allowed-{'+'.join(sorted(w['allowed']))}", f"fail-index-{w['index']}"] if rejected else [])
+             classes=(["unpinnable-violation"] if fickle else []) + (["coroutine-function"] if is_async else []) + (["defaulted-arguments-omitted"] if min(case.get("omit", 0), case.get("ndefaults", 0)) else []) + [f"stage-{w['stage']}", f"flag-{case['flag']}"] + ([f"allowed-{'+'.join(sorted(w['allowed']))}", f"fail-index-{w['index']}"] if rejected else [])
              + (["union-rolled-back-before"] if w.get("rolled") else []) + ([f"tentative-{min(w.get('tentative', 0), 3)}"] if rejected else []),
              sample=dict(desc, first_failure=[w["stage"], w.get("index")], bindings_in_force=w["m"].bindings() if "m" in w else None))
 
@@ -286,6 +298,12 @@ def c13_case(draw):
             # first alternative: fresh names for every axis but the last, which is the impossible size 99
             n = len(e["shape"])
             alt = [dl.Token("", "name", f"q{i}") for i in range(n - 1)] + [dl.Token("", "int", 99)]
+            real = [gc.tok_from_json(j) for j in e["tokens"]]
+            borrow = [t for t in real[1:] if t.base_kind == "name" and t.mods == "" and t.doc is None]
+            if n >= 2 and borrow and draw(st.integers(0, 1)) == 0:
+                # ... or the failing alternative first binds, at another position, a name the right alternative uses too: whatever it
+                # bound is gone once it has failed
+                alt[0] = dl.Token("", "name", borrow[-1].base)
             e["kind"] = "union"
             e["alt1"] = [gc.tok_json(t) for t in alt]
         elif r <= 4:
@@ -333,6 +351,7 @@ def c13_case(draw):
     case["omit"] = draw(st.sampled_from([1, 2, 0, 3]))
     case["flag"] = draw(st.sampled_from([True, False]))
     case["fname"] = draw(st.sampled_from(FNAMES))
+    case["is_async"] = draw(st.sampled_from([False, True, False, False]))
     return case
 
 
